@@ -298,10 +298,12 @@ PROPS['C10'] = dict(
                'after init, node visit k, iteration end, before bestmove); the harness thread does what main() does (construct Uci, loop(), destroy). Non-trivial = distinct sessions in which the search thread was '
                'really parked inside the search when the session ended.'),
     quick=dict(cases=110, shards=16, scale=6,
+               valgrind=dict(sessions=5, shards=16, scale=3),
                exit=dict(cases=12, shards=16, scale=3, min_nontrivial=80, gates={'c10exit:loop_waited_for_the_search_thread': 80, 'c10exit:ending_eof': 20, 'c10exit:park_node_visit': 20}),
                fuzz_jobs=8, fuzz_runs=150,
                gates={'c10:boundary_depth_gt_40': 16, 'c10:boundary_heavy_position': 16, 'c10:go': 700, 'c10:game_ge_720_plies': 10, 'c10:depth_gt_40': 20, 'c10:ge9_of_a_kind': 10}, min_nontrivial=100),
     thorough=dict(cases=1200, shards=16, scale=6, min_nontrivial=3000, fuzz_jobs=16, fuzz_runs=5000,
+                  valgrind=dict(sessions=60, shards=16, scale=4),
                   exit=dict(cases=150, shards=16, scale=3, min_nontrivial=1000)),
 )
 
